@@ -337,7 +337,9 @@ class Session(Endpoint):
 
         # redirect user to OP logout verification page
         if plur and "state" in request:
-            _uri = "{}?{}".format(_uri, urlencode({"state": request["state"]}))
+            _uri = "{}{}{}".format(
+                _uri, "&" if "?" in _uri else "?", urlencode({"state": request["state"]})
+            )
             payload["state"] = request["state"]
 
         payload["redirect_uri"] = _uri
